@@ -56,7 +56,7 @@ Theorem C04_selection_pairing :
   forall (K : Type) (k0 k1 : K) (kadd kmul ksub : K -> K -> K) (kopp : K -> K),
     ring_theory k0 k1 kadd kmul ksub kopp eq ->
     forall n sel g v,
-      Forall (Select.in_bounds K n) sel -> length g = length sel -> length v = n ->
+      List.Forall (Select.in_bounds K n) sel -> length g = length sel -> length v = n ->
       dot K k0 kadd kmul (Select.sscatter K k0 kadd kmul n sel g) v = dot K k0 kadd kmul g (Select.sgather K k0 kmul sel v).
 Proof. intros K k0 k1 kadd kmul ksub kopp R n sel g v H1 H2 H3. exact (proj1 (Select.selection_rule_adjoint K k0 k1 kadd kmul ksub kopp R n sel g v H1 H2 H3)). Qed.
 Print Assumptions C04_selection_pairing.
